@@ -71,6 +71,10 @@ CLAIMED = {
             "semantics), payloads up to > one 8 KiB buffer, histories 0..3; at every crash point the results file is byte-equal to the old or the complete new file, parses, keeps earlier runs. "
             "The model is validated each run against the real file system (forked child dying at the same operation).",
             "Trusts: FS model semantics (validated against the real FS each run); the solver's role is confined to the crash variable; power-loss durability outside."),
+    "C14": ("§C14", "Constructor + ranking tables executed and checked for the listed (players, limit) grid incl. n=5 (reachability of the set-up; exceptions are violations); "
+            "iterations: from every state reached by <=2 concrete loss vectors of a listed set, ONE real regret_min_iteration with free non-negative terminal losses: z3 decides for all loss vectors "
+            "that current / played / average strategies are distributions avoiding revealed coalitions, added regret is orthogonal to the played strategy (plain), plus keeps regret >= 0.",
+            "Trusts: z3, symx carrier. Bounded: no unbounded induction over iterations (fully symbolic pre-state is nonlinear and did not finish); float32 storage and save/load outside."),
 }
 
 NOT_YET = {}
